@@ -31,8 +31,9 @@ RULE = ("(a) Rule-guided valid EML trees rooted at eml / dataset / dataTable / o
         "or a para with only inline children; keywords totalling 1-7; coverage / dataTable / intellectualRights / methods "
         "/ project present or absent; parties with/without userId (ORCID directory or other) and e-mail; names with/without "
         "givenName; entities with/without description; physical with/without size, authentication, record delimiter); "
-        "(b) mutations of those and arbitrary trees over known names.  Oracle: evaluate.tree / evaluate.node never raise, "
-        "keep the list prefix, append (EvaluationWarning, str, Node) triples; an independent three-valued model of the "
+        "(b) mutations of those and arbitrary trees over known names; (c) deep paths that follow the rules' allowed-child "
+        "edges from a far container (eml, dataTable, attributeList, methods, coverage ...) down to an evaluated element.  Oracle: evaluate.tree / evaluate.node never raise, "
+        "keep the list prefix, append (EvaluationWarning, str, Node) triples, codes identified by name and pairwise distinct; an independent three-valued model of the "
         "recommendations (must / must not / unspecified) must contain every 'must' and no 'must not'.  Non-trivial: >= 3 "
         "different codes are 'must' and a threshold quantity sits on its boundary; distinct trees by hash.")
 ASSUMPTIONS = [
